@@ -181,6 +181,21 @@ func c15Months(c *ctx) {
 				}
 			}
 		}
+		if y == 1582 {
+			// October 1582: a time value whose own fields name one of the ten days the civil calendar lacks is refused like
+			// the same fields given as integers (the constructors read the value's fields); the days after the gap build
+			for d := 3; d <= 17; d++ {
+				t := time.Date(1582, 10, d, 8+d%12, 30, 15, 0, time.FixedZone("fixed", (d%5-2)*3600))
+				a, b := []int{}, []int{}
+				try(func() { a = sol(calendar.NewSolarFromDate(t)) })
+				try(func() { b = sol(calendar.NewSolar(t.Year(), int(t.Month()), t.Day(), t.Hour(), t.Minute(), t.Second())) })
+				fd = append(fd, []interface{}{"Solar", d, a, b})
+				a, b = []int{}, []int{}
+				try(func() { a = sol(calendar.NewLunarFromDate(t).GetSolar()) })
+				try(func() { b = sol(calendar.NewSolar(t.Year(), int(t.Month()), t.Day(), t.Hour(), t.Minute(), t.Second())) })
+				fd = append(fd, []interface{}{"Lunar", d, a, b})
+			}
+		}
 		u["fromDate"] = fd
 		c.emit(u)
 	}
